@@ -302,7 +302,7 @@ theorem c13Line_wf : (c13Line : LineFeature R).WellFormed := by
     subst hs
     simp only [List.mem_singleton] at hmem
     subst hmem
-    refine ⟨?_, fun m hm => by simp [c13Segment] at hm⟩
+    refine ⟨?_, fun m hm => by simp [c13Segment] at hm, fun m hm => by simp [c13Segment] at hm⟩
     intro m hm
     simp only [c13Segment, List.mem_cons, List.not_mem_nil, or_false] at hm
     rcases hm with rfl | rfl
